@@ -34,7 +34,7 @@
 #define SP_TRUEV 3
 #define SP_VAL(f) (8 + (f))
 #define SP_INTV(i) (32 + ((i) & 63))       /* small integers only (the harness uses 0 and 7) */
-#define SP_NREG 64                          /* registers the interpreter models; the allocator stubs stay below */
+#define SP_NREG 32                          /* registers the interpreter models; the allocator stubs stay below */
 /* run-time kinds */
 #define K_NIL 0
 #define K_FALSE 1
@@ -95,7 +95,7 @@ void sp_ra_free_stub(JanetcRegisterAllocator *ra, int32_t reg) { sp_free_calls++
 void sp_emit_stub(JanetCompiler *c, uint32_t instr) {
     __CPROVER_assert(c == &sp_c && sp_bufmem.cnt + 1 < SP_VCAP, "harness: the preallocated instruction vectors suffice");
     __CPROVER_assume(sp_bufmem.cnt + 1 < SP_VCAP);
-    sp_bufmem.data[sp_bufmem.cnt++] = instr; sp_mapmem.data[sp_mapmem.cnt++] = c->current_mapping;
+    sp_bufmem.data[sp_bufmem.cnt++] = instr; sp_mapmem.cnt++;
 }
 static void sp_emit_owned(int f, int part, uint32_t w) {
     int32_t at = janet_v_count(sp_c.buffer);
@@ -132,8 +132,8 @@ static int sp_prog[SP_NF], sp_first[SP_NF], sp_clock;
 static int sp_halt, sp_retform, sp_undef_read, sp_changed, sp_disorder, sp_steps;
 static int8_t sp_retval; static int32_t sp_haltpc;
 
-static int sp_kind_of(int8_t v) {
-    if (v == SP_UNDEF) { sp_undef_read = 1; return K_OTHER; }
+static int sp_kind_of_q(int8_t v) {
+    if (v == SP_UNDEF) return K_OTHER;
     if (v == SP_NILV) return K_NIL;
     if (v == SP_FALSEV) return K_FALSE;
     if (v >= SP_VAL(0) && v < SP_VAL(SP_NF)) return sp_kind[v - SP_VAL(0)];
@@ -159,41 +159,42 @@ static void sp_run(int32_t pc, int32_t n) {
         if (pc == n) { sp_halt = H_END; break; }
         if (pc < 0 || pc > n || pc >= SP_VCAP) { sp_halt = H_BAD; break; }
         uint32_t w = sp_c.buffer[pc];
-        int f = sp_own[pc] - 1;
+        int f = sp_own[pc] - 1, part = sp_part[pc];
+        uint32_t op = w & 0xFF, a = (w >> 8) & 0xFF, b16 = w >> 16;
+        int32_t off16 = (int32_t) w >> 16, off24 = (int32_t) w >> 8;
+        /* one register read per operand and one register write per step (keeps the formula small) */
+        int8_t va = sp_reg[a % SP_NREG], vb = sp_reg[b16 % SP_NREG], wv = SP_UNDEF;
+        int32_t wd = -1, next = pc + 1;
+        int ka = sp_kind_of_q(va);
         sp_haltpc = pc;
         if (f >= 0) {                                   /* an instruction of sub-form f */
             if (w != sp_word[pc]) sp_changed = 1;
-            if (sp_part[pc] == 2) {
+            if (sp_first[f] < 0) sp_first[f] = sp_clock++;
+            if (part == 2) {
                 if (sp_prog[f] != sp_k[f]) sp_disorder = 1;
-                if (sp_first[f] < 0) sp_first[f] = sp_clock++;
                 sp_halt = H_RETURN; sp_retform = f; sp_retval = SP_VAL(f);
             } else {
-                if (sp_part[pc] != sp_prog[f]) sp_disorder = 1;
-                if (sp_first[f] < 0) sp_first[f] = sp_clock++;
+                if (part != sp_prog[f]) sp_disorder = 1;
                 sp_prog[f]++;
-                if (sp_prog[f] == sp_k[f] && !sp_isconst[f]) sp_reg[sp_slot[f]] = SP_VAL(f);
-                pc++;
+                if (sp_prog[f] == sp_k[f] && !sp_isconst[f]) { wd = sp_slot[f]; wv = SP_VAL(f); }
             }
-            continue;
-        }
-        uint32_t op = w & 0xFF, a = (w >> 8) & 0xFF, b16 = w >> 16;
-        if (a >= SP_NREG && op != JOP_JUMP && op != JOP_RETURN_NIL) { sp_halt = H_BAD; break; }
-        int32_t off16 = (int32_t) w >> 16, off24 = (int32_t) w >> 8;
-        if (w == (0x80 | JOP_JUMP)) { sp_halt = H_BREAK; }
-        else if (op == JOP_JUMP) pc += off24;
-        else if (op == JOP_JUMP_IF_NOT) pc += (sp_kind_of(sp_reg[a]) != K_OTHER) ? off16 : 1;
-        else if (op == JOP_JUMP_IF) pc += (sp_kind_of(sp_reg[a]) == K_OTHER) ? off16 : 1;
-        else if (op == JOP_JUMP_IF_NIL) pc += (sp_kind_of(sp_reg[a]) == K_NIL) ? off16 : 1;
-        else if (op == JOP_JUMP_IF_NOT_NIL) pc += (sp_kind_of(sp_reg[a]) != K_NIL) ? off16 : 1;
-        else if (op == JOP_MOVE_NEAR) { if (b16 >= SP_NREG) sp_halt = H_BAD; else { sp_reg[a] = sp_reg[b16]; pc++; } }
-        else if (op == JOP_MOVE_FAR) { if (b16 >= SP_NREG) sp_halt = H_BAD; else { sp_reg[b16] = sp_reg[a]; pc++; } }
-        else if (op == JOP_LOAD_NIL) { sp_reg[a] = SP_NILV; pc++; }
-        else if (op == JOP_LOAD_TRUE) { sp_reg[a] = SP_TRUEV; pc++; }
-        else if (op == JOP_LOAD_FALSE) { sp_reg[a] = SP_FALSEV; pc++; }
-        else if (op == JOP_LOAD_INTEGER) { sp_reg[a] = SP_INTV(off16); pc++; }
-        else if (op == JOP_RETURN) { sp_halt = H_RETURN; sp_retval = sp_reg[a]; }
+        } else if (w == (0x80 | JOP_JUMP)) sp_halt = H_BREAK;
+        else if (op == JOP_JUMP) next = pc + off24;
         else if (op == JOP_RETURN_NIL) { sp_halt = H_RETURN; sp_retval = SP_NILV; }
+        else if (a >= SP_NREG) sp_halt = H_BAD;
+        else if (op == JOP_JUMP_IF_NOT) { if (va == SP_UNDEF) sp_undef_read = 1; if (ka != K_OTHER) next = pc + off16; }
+        else if (op == JOP_JUMP_IF) { if (va == SP_UNDEF) sp_undef_read = 1; if (ka == K_OTHER) next = pc + off16; }
+        else if (op == JOP_JUMP_IF_NIL) { if (va == SP_UNDEF) sp_undef_read = 1; if (ka == K_NIL) next = pc + off16; }
+        else if (op == JOP_JUMP_IF_NOT_NIL) { if (va == SP_UNDEF) sp_undef_read = 1; if (ka != K_NIL) next = pc + off16; }
+        else if (op == JOP_MOVE_NEAR) { if (b16 >= SP_NREG) sp_halt = H_BAD; else { wd = (int32_t) a; wv = vb; } }
+        else if (op == JOP_MOVE_FAR) { if (b16 >= SP_NREG) sp_halt = H_BAD; else { wd = (int32_t) b16; wv = va; } }
+        else if (op == JOP_LOAD_NIL) { wd = (int32_t) a; wv = SP_NILV; }
+        else if (op == JOP_LOAD_TRUE) { wd = (int32_t) a; wv = SP_TRUEV; }
+        else if (op == JOP_LOAD_FALSE) { wd = (int32_t) a; wv = SP_FALSEV; }
+        else if (op == JOP_LOAD_INTEGER) { wd = (int32_t) a; wv = (int8_t) SP_INTV(off16); }
+        else if (op == JOP_RETURN) { sp_halt = H_RETURN; sp_retval = va; }
         else sp_halt = H_BAD;
+        if (sp_halt == H_RUNNING) { if (wd >= 0) sp_reg[wd % SP_NREG] = wv; pc = next; }
     }
 }
 
